@@ -118,4 +118,11 @@ TEXT = {
         "design_ref": "DESIGN.md section 2, C11",
         "level_note": "Trusted base: reference namespace model in harness/props/c11_test.go, hlref decoders, x/text Mac-Roman table (shared with mobius: encoder/decoder inverse-ness is checked, not the table), Go regexp for ignore patterns.",
     },
+    "C14": {
+        "engine": "E1 bubble world + E2 live world",
+        "technique": "property-based testing over generated concurrent request mixes with a harness-owned I/O schedule (FIFO-fair writer, slow readers, fake clock) plus stress sampling of real goroutine schedules with the production pump; oracle = strict reference framing parser + request/reply correlation + differential against a sequential baseline",
+        "level_text": "The bubble engine makes the multi-Write interleaving class deterministic (the harness owns write fairness and reader pace), the live engine samples real schedules at several GOMAXPROCS values with the unmodified outbox pump. Both decide the property on the bytes each client actually received. Schedules are sampled: absence of other races is not established.",
+        "design_ref": "DESIGN.md section 2, C14",
+        "level_note": "Trusted base: hlref strict stream decoder, hlsim FairWriter (a ticket lock modelling a socket write lock), structural quiescence predicate over runtime.Stack (all goroutines with mobius/hlsim frames parked on 3 consecutive dumps).",
+    },
 }
